@@ -363,6 +363,18 @@ func expandCond(f *ir.Func, v ssa.Value, pol bool, depth int) [][]Cond {
 		if u, isNot := v.(*ssa.UnOp); isNot && u.Op.String() == "!" && depth <= 4 {
 			return expandCond(f, u.X, !pol, depth)
 		}
+		// x == true / x != false / ... : the comparison with a boolean constant is transparent
+		if bo, isBin := v.(*ssa.BinOp); isBin && depth <= 4 && (bo.Op.String() == "==" || bo.Op.String() == "!=") {
+			for _, pr := range [][2]ssa.Value{{bo.X, bo.Y}, {bo.Y, bo.X}} {
+				if k, isConst := pr[1].(*ssa.Const); isConst && k.Value != nil && k.Value.Kind().String() == "Bool" {
+					p := pol
+					if (k.Value.String() == "false") != (bo.Op.String() == "!=") {
+						p = !p
+					}
+					return expandCond(f, pr[0], p, depth)
+				}
+			}
+		}
 		return [][]Cond{{Normalize(f.Term(v), pol)}}
 	}
 	var alts [][]Cond
